@@ -4,6 +4,7 @@
 #   2. tendermint node/node.go              + NewSimNode constructor
 #   3. $GOROOT/src/runtime/map.go           + seedable map iteration order / hash seed (replica divergence search)
 #   4. $GOROOT/src/time/time.go             + settable wall clock (time.SetSimNow): replicas run with skewed clocks
+#   4b. $GOROOT/src/time/sleep.go           + timers under simulated time (time.AdvanceSim): a stalled node
 # Nothing in /repo is touched. The originals come from the module cache and GOROOT.
 set -euo pipefail
 export GOFLAGS=-mod=mod GOPROXY=off GOSUMDB=off GOTOOLCHAIN=local
@@ -112,16 +113,127 @@ func SetSimNow(on bool, unixNano int64) {
 		simNowOn.Store(1)
 	} else {
 		simNowOn.Store(0)
+		if simTimersRelease != nil {
+			simTimersRelease()
+		}
+	}
+}
+
+// simTimersRelease is set by the timer seam (sleep.go overlay), if that one is compiled in.
+var simTimersRelease func()
+"""
+open(sys.argv[2],"w").write(s)
+EOF
+
+# ---- 4b. time/sleep.go: timers armed while the simulated clock is on fire when SIMULATED time reaches them
+# (time.AdvanceSim: a stalled node), never by themselves; when the simulated clock is switched off they become
+# ordinary timers with what was left of their duration.
+src="$GOROOT_DIR/src/time/sleep.go"
+dst="$OUT/time_sleep.go"
+TIMERSEAM=$CLOCKSEAM
+python3 - "$src" "$dst" <<'EOF' || TIMERSEAM=0
+import sys
+s=open(sys.argv[1]).read()
+n1="\tt := (*Timer)(newTimer(when(d), 0, sendTime, c, syncTimer(c)))\n\tt.C = c\n\treturn t\n"
+n2="\tw := when(d)\n\treturn resetTimer(t, w, 0)\n"
+n3="\treturn stopTimer(t)\n"
+n4="\treturn (*Timer)(newTimer(when(d), 0, goFunc, f, nil))\n"
+for n in (n1,n2,n3,n4):
+    if s.count(n)!=1:
+        sys.exit(1)
+if 'import (' not in s:
+    sys.exit(1)
+s=s.replace(n1,"\tt := (*Timer)(newTimer(simWhen(d), 0, sendTime, c, syncTimer(c)))\n\tt.C = c\n\tsimTimerArm(t, d)\n\treturn t\n")
+s=s.replace(n2,"\tw := simWhen(d)\n\tsimTimerArm(t, d)\n\treturn resetTimer(t, w, 0)\n")
+s=s.replace(n3,"\tsimTimerDisarm(t)\n\treturn stopTimer(t)\n")
+s=s.replace(n4,"\tt := (*Timer)(newTimer(simWhen(d), 0, goFunc, f, nil))\n\tsimTimerArm(t, d)\n\treturn t\n")
+s=s.replace('import (','import (\n\t"sync"',1)
+s+="""
+// ---- /verif simulator seam: timers under simulated time.
+const simFar = int64(1) << 56 // ~2 years: a timer parked until simulated time reaches it
+
+var simTimers struct {
+	mu  sync.Mutex
+	now int64            // simulated nanoseconds elapsed (only AdvanceSim moves it)
+	reg map[*Timer]int64 // parked timers -> simulated deadline
+}
+
+func init() { simTimersRelease = simRelease }
+
+func simWhen(d Duration) int64 {
+	if simNowOn.Load() != 0 && d > 0 {
+		return runtimeNano() + simFar
+	}
+	return when(d)
+}
+
+func simTimerArm(t *Timer, d Duration) {
+	simTimers.mu.Lock()
+	if simNowOn.Load() != 0 && d > 0 {
+		if simTimers.reg == nil {
+			simTimers.reg = map[*Timer]int64{}
+		}
+		simTimers.reg[t] = simTimers.now + int64(d)
+	} else if simTimers.reg != nil {
+		delete(simTimers.reg, t)
+	}
+	simTimers.mu.Unlock()
+}
+
+func simTimerDisarm(t *Timer) {
+	simTimers.mu.Lock()
+	if simTimers.reg != nil {
+		delete(simTimers.reg, t)
+	}
+	simTimers.mu.Unlock()
+}
+
+// AdvanceSim moves simulated time forward by d: Now() jumps, and every timer armed under simulated time whose
+// deadline is reached fires. It returns how many fired.
+func AdvanceSim(d Duration) int {
+	simNowNanos.Add(int64(d))
+	simTimers.mu.Lock()
+	simTimers.now += int64(d)
+	var due []*Timer
+	for t, dl := range simTimers.reg {
+		if dl <= simTimers.now {
+			due = append(due, t)
+		}
+	}
+	for _, t := range due {
+		delete(simTimers.reg, t)
+	}
+	simTimers.mu.Unlock()
+	for _, t := range due {
+		resetTimer(t, runtimeNano(), 0)
+	}
+	return len(due)
+}
+
+// simRelease: simulated time was switched off; parked timers run on the real clock for what is left of them.
+func simRelease() {
+	simTimers.mu.Lock()
+	reg := simTimers.reg
+	simTimers.reg = nil
+	now := simTimers.now
+	simTimers.mu.Unlock()
+	for t, dl := range reg {
+		left := dl - now
+		if left < 0 {
+			left = 0
+		}
+		resetTimer(t, runtimeNano()+left, 0)
 	}
 }
 """
 open(sys.argv[2],"w").write(s)
 EOF
 
-python3 - "$OUT" "$TM" "$GOROOT_DIR" "$MAPSEAM" "$CLOCKSEAM" <<'EOF'
+python3 - "$OUT" "$TM" "$GOROOT_DIR" "$MAPSEAM" "$CLOCKSEAM" "$TIMERSEAM" <<'EOF'
 import sys,json
 out,tm,goroot,mapseam=sys.argv[1:5]
 clockseam=sys.argv[5]
+timerseam=sys.argv[6]
 rep={tm+"/rpc/client/httpclient.go":out+"/tm_httpclient.go",
      tm+"/node/node.go":out+"/tm_node.go"}
 if mapseam=="1":
@@ -130,6 +242,10 @@ if clockseam=="1":
     rep[goroot+"/src/time/time.go"]=out+"/time_time.go"
 json.dump({"Replace":rep},open(out+"/../overlay.json","w"),indent=1)
 open(out+"/../mapseam","w").write(mapseam+"\n")
+if timerseam=="1":
+    rep[goroot+"/src/time/sleep.go"]=out+"/time_sleep.go"
+    json.dump({"Replace":rep},open(out+"/../overlay.json","w"),indent=1)
 open(out+"/../clockseam","w").write(clockseam+"\n")
+open(out+"/../timerseam","w").write(timerseam+"\n")
 EOF
-echo "overlay generated: mapseam=$MAPSEAM clockseam=$CLOCKSEAM"
+echo "overlay generated: mapseam=$MAPSEAM clockseam=$CLOCKSEAM timerseam=$TIMERSEAM"
